@@ -4,7 +4,8 @@ C33 — Regular expression functions agree with each other and with the pattern.
 Model: Gms/Model/RegexFn.lean — the SQL layer (/repo's regexp_*.go) and the wrapper layer
 (go-icu-regex, reached through internal/regex) over an *arbitrary* matcher
 `m : Nat → List (start, end)`. The theorems below hold for every matcher (ICU included, whatever
-it matches), every subject, every position / occurrence / return option.
+it matches), every subject, every position / occurrence / return option. The rows of one statement
+go through ONE node (`runRows`): `rows_independent` — no row's result depends on the rows before it.
 -/
 import Gms.Model.RegexFn
 import Gms.Generated.C33
@@ -621,7 +622,7 @@ results they get without the filter. -/
 theorem rows_filtered (d : Discipline) (hd : d.Sound) (W : World) (fn : Fn) (md : Modes) (rows : List Row)
     (p : Row → Bool) (h : Respects md rows) :
     runRows d W fn md Node.fresh (rows.filter p) = (rows.filter p).map (evalFresh W fn) :=
-  rows_independent d hd W fn md _ (h.sub fun x hx => (List.mem_filter.mp hx).1)
+  rows_independent d hd W fn md _ (h.sub fun _ hx => (List.mem_filter.mp hx).1)
 
 /-- Non-vacuity: a two-row statement with per-row pattern and flags and a constant position. -/
 example : Respects ⟨false, false, false, true⟩
@@ -710,5 +711,59 @@ theorem facts_wrapper_calls :
        "RegexpReplace: r.re.Replace(ctx, rText.(string), int(pos.(int32)), int(occurrence.(int32)))"] ∧
     Generated.C33.replacePosChecks =
       ["pos.(int32) <= 0", "len(text.(string)) != 0 && int(pos.(int32)) > len(text.(string))"] := by decide
+
+/-! ### The per-node state (what survives from row to row, and what it is keyed on) -/
+
+def recvOf : Fn → String
+  | .like => "RegexpLike"
+  | .instr => "RegexpInstr"
+  | .substr => "RegexpSubstr"
+  | .replace => "RegexpReplace"
+
+/-- The state of a node is exactly the one modelled by `Node`: `compileOnce`/`cacheRegex`/`cacheVal`
+(`once`, `cacheRegex`, `cacheVal`), `re`/`compileErr` (`compiled`) and `cachedVal` — no further
+field (such as a remembered pattern value) survives from row to row. -/
+theorem facts_node_state :
+    ∀ fn : Fn, Generated.C33.nodeState.lookup (recvOf fn) =
+      some ["cacheRegex bool", "cacheVal bool", "cachedVal any", "compileErr error", "compileOnce sync.Once", "re regex.Regex"] := by
+  intro fn; cases fn <;> decide
+
+/-- The cached regex is keyed on pattern **and** flags (`Modes.cacheRegex`), the cached value in
+addition on every other argument (`Modes.cacheVal`); the per-row branch closes the previous regex
+and re-compiles from the row's pattern and flags unconditionally (`Discipline.perRow`). -/
+theorem facts_cache_discipline :
+    (∀ fn : Fn, Generated.C33.cacheRegexKey.lookup (recvOf fn) = some ["Pattern", "Flags"]) ∧
+    Generated.C33.cacheValKey =
+      [("RegexpLike", ["Text"]), ("RegexpInstr", ["Text", "Position", "Occurrence", "ReturnOption"]),
+       ("RegexpSubstr", ["Text", "Position", "Occurrence"]), ("RegexpReplace", ["Text", "RText", "Position", "Occurrence"])] ∧
+    (∀ fn : Fn, Generated.C33.onceBlock.lookup (recvOf fn) =
+      some ["cacheRegex := canBeCached", "cacheVal := cacheRegex && canBeCached",
+            "if cacheRegex: re, compileErr := compileRegex(pattern=Pattern, text=Text, flags=Flags, row)"]) ∧
+    (∀ fn : Fn, Generated.C33.perRowBranch.lookup (recvOf fn) =
+      some ["close the previous regex", "re, compileErr := compileRegex(pattern=Pattern, text=Text, flags=Flags, row)"]) := by
+  refine ⟨?_, by decide, ?_, ?_⟩ <;> intro fn <;> cases fn <;> decide
+
+/-- Every argument field of a constructor is covered by one of the two `canBeCached` calls, i.e.
+the cached value depends on no argument outside its key. -/
+theorem facts_cache_key_covers_arguments :
+    ∀ row ∈ Generated.C33.ctorArgFields,
+      let recv := ([("NewRegexpLike", "RegexpLike"), ("NewRegexpInstr", "RegexpInstr"), ("NewRegexpSubstr", "RegexpSubstr"),
+        ("NewRegexpReplace", "RegexpReplace")].lookup row.1).getD ""
+      row.2.2.1 ∈ (Generated.C33.cacheRegexKey.lookup recv).getD [] ∨
+      row.2.2.1 ∈ (Generated.C33.cacheValKey.lookup recv).getD [] := by
+  decide
+
+/-- Who writes the state: `compile` (and `WithChildren`, which hands the regex over to the copy);
+`Eval` writes `cachedVal` in LIKE / INSTR / SUBSTR only (`cachesResult`), behind `r.cacheVal`, and
+the `cachedVal != nil` short cut sits in front of `compile`. -/
+theorem facts_state_writers :
+    (∀ fn : Fn, Generated.C33.stateWrites.filterMap (fun w => if w.1 = recvOf fn then some w.2 else none) =
+      [("WithChildren", "re"), ("compile", "cacheRegex"), ("compile", "cacheVal"), ("compile", "re,compileErr"),
+       ("compile", "compileErr"), ("compile", "re,compileErr")] ++ (if cachesResult fn then [("Eval", "cachedVal")] else [])) ∧
+    Generated.C33.stateWrites.length = 27 ∧
+    (∀ fn : Fn, Generated.C33.evalHead.lookup (recvOf fn) =
+      some ["if r.cachedVal != nil { return r.cachedVal, nil }", "r.compile(ctx, row)"]) ∧
+    (∀ fn : Fn, Generated.C33.cachedValGuards.lookup (recvOf fn) = some (if cachesResult fn then ["r.cacheVal"] else [])) := by
+  refine ⟨?_, by decide, ?_, ?_⟩ <;> intro fn <;> cases fn <;> decide
 
 end Gms.C33
